@@ -9,6 +9,13 @@ COMMON_NOTE = ("Trusted: Coq 8.16.1 kernel and its VM (vm_compute; no native_com
                "(virtual clock, scheduler, canonicalisation, case printer). ")
 # id -> (text, note, technique, design_ref)
 CLAIMED = {
+ "C08": ("Theorems: for every signature, template over its parameters and two call forms that Python's binding maps to the same arguments, the Gallina image "
+         "of get_cache_key (keyword-only shortcut, bind+apply_defaults path, str.format fast path vs Formatter fallback) returns the same key and does not raise; "
+         "for ':'-separated templates (the automatic one always is) argument maps differing at a mentioned field by separable values render to different keys "
+         "(decimal printing injective, no ':' in rendered ints/bools). All equivalent call forms of generated calls are run through the real get_cache_key / a "
+         "decorated call and compared with the model key for key on every run.",
+         "inspect.Signature.bind+apply_defaults and str.format for plain {name} fields are modelled; attribute fields, format functions, key_context, custom type formats, sets and positional-only parameters are not.",
+         "Coq proof (association-list reasoning over a model of Python call binding; string separation lemma) + differential correspondence", "3/C08"),
  "C09": ("Theorem: for every pickler/MAC meeting an explicit contract (dumps/loads round trip, pickles not digit-only, 'bytes:' payloads rejected with the "
          "pickler's own error class or passed through, hex MAC), every signer configuration, key and value, decode(encode v) = v in the Gallina image of "
          "Serializer/HashSigner. On every run the real Serializer inside Memory is compared with the model byte for byte on the stored blob and on the "
